@@ -167,11 +167,14 @@ let verdict case impl =
     let small = match find_field "s=" impl with Some v -> v | None -> "-" in
     let sch = match find_field "sch=" impl with
       | Some v -> List.filter_map int_of_string_opt (String.split_on_char '.' v) | None -> [] in
-    let status = List.filter (fun f -> not (starts "m=" f || starts "t=" f || starts "s=" f || starts "dc=" f || starts "sch=" f)) impl in
+    let status = List.filter (fun f -> not (starts "m=" f || starts "t=" f || starts "s=" f || starts "dc=" f || starts "sch=" f || starts "h=" f)) impl in
     (match num "m=", num "t=" with
      | None, _ | _, None -> "error result line without m= / t= (the measurements the property is judged on)"
      | Some maxreq, Some total ->
     if find_field "s=" impl = None then "error result line without s=" else
+    (* h= the stack high-water mark (bytes) of the run on the small stack; present whenever that run returned *)
+    let hwm = match find_field "h=" impl with Some v -> int_of_string_opt v | None -> None in
+    if (small = "ok" || small = "differ") && hwm = None then "error result line without h= (stack high-water mark)" else
     if kind.[0] = 'Q' && sch = [] && (match status with ("notrun" | "abort" | "panic" | "timeout") :: _ -> false | _ -> true)
     then "error Q result line without sch=" else
     match status with
@@ -285,6 +288,10 @@ let verdict case impl =
          let base = malloc + 64 * (len + dlen) + 65536 + codec_buffer in
          if maxreq > base && maxreq > base + typed_vector () then
            Printf.sprintf "diff alloc-accounting maxreq=%d model_alloc=%d len=%d" maxreq malloc len
+         else if (match hwm with Some h -> not (stack_in_bound c (n_of_i h)) | None -> false) then
+           (* measured stack use above the prediction from the model's recursion depth (C08_stack) *)
+           Printf.sprintf "diff stack-accounting hwm=%d predicted=%d model_depth=%s"
+             (match hwm with Some h -> h | None -> 0) (int_of_n (stack_bound c)) (dec_of_n c.c_depth)
          else if small = "overflow" || small = "differ" then
            (* the model bounds the recursion by 257 levels: a quarter (512 KiB) of the 2 MiB stack must do *)
            "diff stack-accounting small-stack-run=" ^ small ^ " model_depth=" ^ dec_of_n c.c_depth
